@@ -6,11 +6,7 @@ package dbx
 import (
 	"encoding/json"
 	"fmt"
-	"runtime"
-	"runtime/debug"
-	"strings"
 	"sync"
-	"time"
 
 	"github.com/cenkalti/rpc2"
 	"github.com/ovn-org/libovsdb/ovsdb"
@@ -119,34 +115,15 @@ func Step(cfg *Config, hist []int, t Txn) *Edge {
 		recs = append(recs, rec)
 		clients = append(clients, cl)
 	}
-	done := make(chan struct{})
-	go func() {
-		defer close(done)
-		defer func() {
-			if p := recover(); p != nil {
-				e.Panic = fmt.Sprint(p)
-				e.PanicAt = panicSite(string(debug.Stack()))
-			}
-		}()
-		if t.Raw != nil {
-			e.Res, e.RPCErr = s.TransactRaw(t.Raw)
-			e.Accepted = accepted(e.Res, len(t.Raw)-1, e.RPCErr)
-		} else {
-			e.Res, e.RPCErr = s.TransactRef(t.Ops)
-			e.Accepted = accepted(e.Res, len(t.Ops), e.RPCErr)
-		}
-	}()
-	select {
-	case <-done:
-	case <-time.After(HangTimeout):
-		// the transaction does not terminate (watchdog far above the normal latency of < 1 ms);
-		// the goroutine is abandoned, the edge is reported as a hang
-		e2 := *e
-		e2.Res, e2.RPCErr, e2.Accepted = nil, nil, false
-		e2.Panic = "transaction did not return within " + HangTimeout.String()
-		e2.PanicAt = "hang:" + hangSite()
-		e2.Post, e2.PostRefs = e2.Pre, e2.PreRefs
-		return &e2
+	if t.Raw != nil {
+		e.Res, e.RPCErr = s.TransactRaw(t.Raw)
+		e.Accepted = accepted(e.Res, len(t.Raw)-1, e.RPCErr)
+	} else {
+		e.Res, e.RPCErr = s.TransactRef(t.Ops)
+		e.Accepted = accepted(e.Res, len(t.Ops), e.RPCErr)
+	}
+	if f, ok := e.RPCErr.(*sys.ImplFailure); ok {
+		e.Panic, e.PanicAt = f.Panic, f.At
 	}
 	if e.Panic != "" {
 		// the server died holding its transaction lock: the system cannot be used further
@@ -194,10 +171,25 @@ func Explore(r *ev.Run, cfg Config) {
 				if r.Expired() {
 					return
 				}
-				e := Step(&cfg, n.hist, t)
-				r.Add("transitions", 1)
-				if cfg.OnEdge != nil {
-					cfg.OnEdge(e)
+				var e *Edge
+				func() {
+					defer func() {
+						if p := recover(); p != nil {
+							// the harness could not replay a history it had already executed, or the
+							// implementation panicked outside a guarded call: same history, different behaviour
+							r.Violation(r.Prop+".replay-diverged", fmt.Sprintf("history %v then %s: %v", n.hist, t.Name, p),
+								map[string]interface{}{"history": n.hist, "txn": t.Name, "panic": fmt.Sprint(p)})
+							e = nil
+						}
+					}()
+					e = Step(&cfg, n.hist, t)
+					r.Add("transitions", 1)
+					if cfg.OnEdge != nil {
+						cfg.OnEdge(e)
+					}
+				}()
+				if e == nil {
+					continue
 				}
 				if ti < len(cfg.Alphabet) && e.Accepted && depth < cfg.Depth {
 					h := canon.Hash(e.Post.Dump() + "#" + e.PostRefs)
@@ -216,48 +208,4 @@ func Explore(r *ev.Run, cfg Config) {
 		r.Set("max_depth", depth+1)
 		frontier = next
 	}
-}
-
-// panicSite extracts the first libovsdb frame below the panic from a stack trace.
-func panicSite(stack string) string {
-	lines := strings.Split(stack, "\n")
-	seenPanic := false
-	for _, l := range lines {
-		if strings.HasPrefix(l, "panic(") {
-			seenPanic = true
-			continue
-		}
-		if seenPanic && strings.HasPrefix(l, "github.com/ovn-org/libovsdb/") {
-			f := strings.TrimPrefix(l, "github.com/ovn-org/libovsdb/")
-			if i := strings.LastIndex(f, "("); i > 0 {
-				f = f[:i]
-			}
-			return f
-		}
-	}
-	return "unknown"
-}
-
-// HangTimeout is the watchdog for one transaction.
-var HangTimeout = 20 * time.Second
-
-// hangSite returns the innermost libovsdb frame of the busiest goroutine stuck in Transact.
-func hangSite() string {
-	buf := make([]byte, 1<<20)
-	n := runtime.Stack(buf, true)
-	for _, g := range strings.Split(string(buf[:n]), "\n\n") {
-		if !strings.Contains(g, "server.(*OvsdbServer).Transact") {
-			continue
-		}
-		for _, l := range strings.Split(g, "\n") {
-			if strings.HasPrefix(l, "github.com/ovn-org/libovsdb/") {
-				f := strings.TrimPrefix(l, "github.com/ovn-org/libovsdb/")
-				if i := strings.LastIndex(f, "("); i > 0 {
-					f = f[:i]
-				}
-				return f
-			}
-		}
-	}
-	return "unknown"
 }
